@@ -122,14 +122,19 @@ def judge_stage(run, spec, stage, c11, found):
 
 
 # ------------------------------------------------------------------ model legs
+def visit_states(m):
+    """hand-set states of the visit leg: the registry's, default the three Kotlin states"""
+    return m.get("visit_states") or [{"ident": i, "is_unit": u, "is_lambda": l, "_cast_integers": c}
+                                     for (i, u, l, c) in VISIT_STATES]
+
+
 def model_requests(L, e, pool_exports):
     m = MODELS[L]
     rq = [{"op": m["op"], "program": e, "package": "src.pkg"},
           {"op": m["op"], "program": e, "package": "src.pkg", "history": [pool_exports[0], pool_exports[1], e]},
           {"op": m["state_op"], "program": e, "package": "src.pkg", "history": [pool_exports[0], pool_exports[1], e]}]
-    for (ident, unit, lam, cast) in VISIT_STATES:
-        rq.append({"op": m["visit_op"], "program": e, "ident": ident, "is_unit": unit, "is_lambda": lam,
-                   "_cast_integers": cast})
+    for vs in visit_states(m):
+        rq.append(dict(vs, op=m["visit_op"], program=e))
     if "issam_op" in m:
         rq.append({"op": m["issam_op"], "program": e})
     return rq
@@ -171,8 +176,8 @@ def model_judge(L, rq, ans, c11):
             if mstate != rs:
                 out.append(("visit-state", {"init": real["init"], "real": rs, "model": mstate}))
     if "issam_op" in m and "is_sam" in c11:
-        if ans[3 + len(VISIT_STATES)]["r"] != c11["is_sam"]:
-            out.append(("is_sam", {"real": c11["is_sam"][:8], "model": ans[3 + len(VISIT_STATES)]["r"][:8]}))
+        if ans[3 + len(visit_states(m))]["r"] != c11["is_sam"]:
+            out.append(("is_sam", {"real": c11["is_sam"][:8], "model": ans[3 + len(visit_states(m))]["r"][:8]}))
     return out
 
 
